@@ -98,6 +98,7 @@ type Exec struct {
 	jsonBlobs  map[*Loc]*jsonBlob
 	opaqueBytes map[*Opaque]*Term
 	marshalKind string
+	timeFmtDigits bool
 }
 
 type knownPred struct {
